@@ -113,7 +113,7 @@ REENT_BIND_OBJS := $(patsubst $(GEN)/%.c,$(REENTB)/%.o,$(BIND_SRCS))
 $(REENTB)/bind_%.o: $(GEN)/bind_%.c bindings/bind.h $(REPO_HDRS) | dirs
 	@mkdir -p $(REENTB)
 	$(CC) -std=gnu99 -O1 -g -I$(REPO)/include -Ibindings -w -c $< -o $@
-REENT_WRAPFLAGS := $(foreach w,strtok rand srand localtime gmtime ctime asctime strerror setlocale malloc calloc realloc free getenv secure_getenv $(shell cat engines/reent/libc_denylist.txt),-Wl,--wrap=$(w))
+REENT_WRAPFLAGS := $(foreach w,strtok rand srand localtime gmtime ctime asctime strerror setlocale malloc calloc realloc free getenv secure_getenv rand_r strtok_r random_r srandom_r initstate_r setstate_r drand48_r lrand48_r mrand48_r erand48_r nrand48_r jrand48_r srand48_r seed48_r lcong48_r mbrtowc mbrlen wcrtomb mbsrtowcs wcsrtombs localtime_r gmtime_r iconv iconv_close $(shell cat engines/reent/libc_denylist.txt),-Wl,--wrap=$(w))
 REENT_DRV_OBJS := $(REENTB)/drv_can.o $(REENTB)/drv_canbrief.o $(REENTB)/drv_vss.o
 $(REENTB)/drv_%.o: engines/reent/drv_%.c engines/reent/drivers.h $(REPO_HDRS) | dirs
 	@mkdir -p $(REENTB)
@@ -151,12 +151,18 @@ GCC_DRV_OBJS := $(GLIBB)/drv_can.o $(GLIBB)/drv_canbrief.o $(GLIBB)/drv_vss.o
 $(GLIBB)/drv_%.o: engines/reent/drv_%.c engines/reent/drivers.h $(REPO_HDRS) | dirs
 	@mkdir -p $(GLIBB)
 	$(GCC) $(GCC_REPO_CFLAGS) -Iengines/reent -c $< -o $@
+# (for C16 the gcc-built library additionally carries gcc's thread-sanitizer instrumentation: its __tsan_read/__tsan_write calls are the
+#  access callbacks that gcc's coverage instrumentation lacks; the engine implements them, no sanitizer runtime is linked)
+GCCT_LIB_OBJS := $(patsubst $(REPO)/src/%.c,$(GLIBB)/tlib/%.o,$(LIB_SRCS))
+$(GLIBB)/tlib/%.o: $(REPO)/src/%.c $(REPO_HDRS) Makefile $(B)/repo_config.mk | dirs
+	@mkdir -p $(dir $@)
+	$(GCC) $(GCC_REPO_CFLAGS) $(REPO_LIB_DEFS) -fsanitize-coverage=trace-pc -fsanitize=thread -c $< -o $@
 REENTG_SIM_OBJS := $(patsubst %.cc,$(GLIBB)/reent/%.o,$(REENT_SIM_SRCS))
 $(GLIBB)/reent/%.o: %.cc $(wildcard sim/*.h spec/*.h bindings/*.h engines/reent/*.h engines/reent/*.inc engines/reent/*.txt) Makefile | dirs
 	@mkdir -p $(dir $@)
 	$(CXX) $(SIM_CXXFLAGS) -DREENT_VARIANT_GCC=1 -c $< -o $@
-$(B)/reentg_sim: $(REENTB)/marker_begin.o $(GCC_LIB_OBJS) $(REENTB)/marker_end.o $(GCC_BIND_OBJS) $(GCC_DRV_OBJS) $(REENTG_SIM_OBJS)
-	$(CXX) -no-pie -Wl,--wrap=memcpy -Wl,--wrap=memset -Wl,--wrap=memmove $(REENT_WRAPFLAGS) -o $@ $(REENTB)/marker_begin.o $(GCC_LIB_OBJS) $(REENTB)/marker_end.o $(GCC_BIND_OBJS) $(GCC_DRV_OBJS) $(REENTG_SIM_OBJS) -lm
+$(B)/reentg_sim: $(REENTB)/marker_begin.o $(GCCT_LIB_OBJS) $(REENTB)/marker_end.o $(GCC_BIND_OBJS) $(GCC_DRV_OBJS) $(REENTG_SIM_OBJS)
+	$(CXX) -no-pie -Wl,--wrap=memcpy -Wl,--wrap=memset -Wl,--wrap=memmove $(REENT_WRAPFLAGS) -o $@ $(REENTB)/marker_begin.o $(GCCT_LIB_OBJS) $(REENTB)/marker_end.o $(GCC_BIND_OBJS) $(GCC_DRV_OBJS) $(REENTG_SIM_OBJS) -lm
 reent: $(B)/reentg_sim
 RECG_SIM_OBJS := $(patsubst %.cc,$(GLIBB)/rec/%.o,$(REC_SIM_SRCS))
 $(GLIBB)/rec/%.o: %.cc $(wildcard sim/*.h spec/*.h bindings/*.h) Makefile | dirs
